@@ -485,6 +485,40 @@ def r7_fresh_log_is_loaded(ctx):
         r.anchor_missing("tree-dependent operations on logs opened in the same function (found %d)" % n)
 
 
+def r8_unchecked_only_on_empty_log(ctx):
+    """Inside merge_* an unchecked application of a remote patch is only
+    legitimate as the very first content of an empty log."""
+    ws = ctx.ws
+    r = ctx.rule("C07-R8", "merge implementations apply a patch without the checkpoint gate only onto an empty log",
+                 floor=1, kind="K2 edge dominance")
+    n = 0
+    for f in ws.fns.values():
+        if f.crate in idioms.TEST_CRATES or not re.match(r"merge_(identity|account|device|files|folder)$", f.meta.get("name") or ""):
+            continue
+        body = cfg.code_body(ws, f)
+        live = cfg.live_blocks(body)
+        un = [(i, t) for i, t in idioms.real_calls(body, live) if cname(t) in ("patch_unchecked", "apply_records", "apply") and t.get("trait") == EVENTLOG]
+        if not un:
+            continue
+        n += 1
+        gates = []
+        for i in live:
+            bs = cfg.bool_switch(body, i)
+            if bs and bs.def_is_term and cname(bs.defn) == "is_empty" and "CommitTree" in (bs.defn.get("callee") or ""):
+                gates.append(bs)
+        for (ui, ut) in un:
+            k = "%s|%s" % (f.root, cname(ut))
+            cut = {(g.block, g.true_t) for g in gates}
+            if not gates or ui in cfg.reach(body, [0], cut_edges=cut):
+                r.violation(k, cfg.loc(body, ui),
+                            "%s applies the remote patch with %s on a path that does not require the local log to be empty: a diff against a stale or forged checkpoint is appended and reported as Success" % (f.meta.get("name"), cname(ut)),
+                            work=len(live), witness=cfg.path_lines(body, cfg.find_path(body, [0], [ui], cut_edges=cut)))
+            else:
+                r.ok(k, cfg.loc(body, ui), "unchecked application only under tree().is_empty()", work=len(live))
+    if n < 1:
+        r.anchor_missing("merge_* implementations with an unchecked first-patch path")
+
+
 # Calls that change derived state when a merge replays events.
 EFFECTS = {"create_secret", "update_secret", "delete_secret", "set_vault_name",
            "set_vault_flags", "set_vault_meta", "import_folder", "delete_folder",
@@ -512,6 +546,7 @@ def run(ctx):
     r4_rollback_order(ctx)
     r5_replay_after_accept(ctx)
     r7_fresh_log_is_loaded(ctx)
+    r8_unchecked_only_on_empty_log(ctx)
     if ctx.tier == "thorough" and ctx.config == "workspace":
         from .. import witness
         witness.run(ctx, 'C07-R6', 'rewind-and-patch and sync helpers cannot be called through a read guard', {'PatchNeedsWriteGuard': 'event_patch(req, &mut *read_guard)', 'SyncNeedsWriteGuard': 'sync_account(packet, &mut *read_guard)'})
